@@ -583,6 +583,13 @@ func c02Enumerate(quick bool, visit func(label string, decls gd) bool) {
 				return
 			}
 		}
+		if D.d["object"] == nil && !D.isArray {
+			// the same declaration once inside an xpath_dynamic (where evaluation errors are swallowed) and once as a plain member
+			if !visit("C:dynamic-and-member", fo(gd{"object": gd{"a": gd{"xpath_dynamic": D.d}, "z": D.d}})) ||
+				!visit("C:dynamic-and-member", gd{"FINAL_OUTPUT": gd{"object": gd{"a": gd{"xpath_dynamic": gd{"template": "T"}}, "z": gd{"template": "T"}}}, "T": D.d}) {
+				return
+			}
+		}
 	}
 }
 
